@@ -98,6 +98,7 @@ pub fn env_password_strategy() -> BoxedStrategy<String> {
         1 => "[!-~]{1,10}[ \t]",
         1 => "[ \u{3000}\t][!-~]{1,10}",
         1 => "[!-~]{1,6} ",
+        1 => "[!-~]{1,8}\r",
     ].boxed()
 }
 /// The 64-byte HMAC key block of a password: passwords with equal blocks are the same scrypt/PBKDF2 key (RFC 2104).
@@ -117,6 +118,7 @@ pub fn wrong_passwords(w: &[u8], sel: u64) -> Vec<(Vec<u8>, &'static str)> {
     let mut x = w.to_vec(); x.push(b'a'); v.push((x, "append"));
     let mut x = w.to_vec(); x.push(b' '); v.push((x, "append-space"));
     let mut x = w.to_vec(); x.push(b'\n'); v.push((x, "append-newline"));
+    let mut x = w.to_vec(); x.push(b'\r'); v.push((x, "append-cr"));
     if w.last().map(|c| c.is_ascii_whitespace()).unwrap_or(false) { let mut x = w.to_vec(); while x.last().map(|c| c.is_ascii_whitespace()).unwrap_or(false) { x.pop(); } v.push((x, "trimmed")); }
     if w.first().map(|c| c.is_ascii_whitespace()).unwrap_or(false) { v.push((w[1..].to_vec(), "left-trimmed")); }
     v.push((b"an unrelated password".to_vec(), "unrelated"));
